@@ -2,7 +2,8 @@
    Proofs*.v and followed by Print Assumptions. *)
 From Coq Require Import List Arith ZArith Bool Permutation Sorted.
 From Verif Require Import lib.Wire c14.Model c14.Spec c14.Proofs c14.Proofs_Abs c14.Proofs_Trim c14.Proofs_Main
-     c14.Conc c14.SpecConc c14.ProofsConc c14.ProofsConc2 c14.ProofsConc3 c14.ProofsConc4 c14.ProofsConc5.
+     c14.Conc c14.SpecConc c14.ProofsConc c14.ProofsConc2 c14.ProofsConc3 c14.ProofsConc4 c14.ProofsConc5
+     c14.Registry c14.ProofsRegistry.
 Import ListNotations.
 Local Open Scope Z_scope.
 
@@ -320,6 +321,28 @@ Theorem c14_conc_literal_low_fails_with_unprotect_witness :
 Proof. vm_compute. repeat split; auto 30. Qed.
 Print Assumptions c14_conc_literal_low_fails_with_unprotect_witness.
 
+(* THE DECAYER'S TAG REGISTRY (Registry.v): Close queues the closure, the loop
+   processes it later by NAME, RegisterDecayingTag refuses a name that is in
+   knownTags.  After every step of every schedule of Register / Close / loop
+   processing, a registered tag whose closed flag is not set is in knownTags
+   (so every tick visits it and its values decay at its intervals): the
+   by-name deletion can only ever hit the closed object itself, because the
+   name stays taken until its closure has been processed. *)
+Theorem c14_registry_unclosed_tag_is_known : forall sched n g,
+  let r := rrun false rinit sched in
+  In (n, g) (r_all r) -> ~ In (n, g) (r_closed r) -> known_of r n = Some g.
+Proof. intros sched n g r. exact (ri_live_known _ (rinv_run sched rinit rinv_init) n g). Qed.
+Print Assumptions c14_registry_unclosed_tag_is_known.
+
+(* non-vacuity: if Close also frees the name at once ("so it can be reused"),
+   a re-registration slips in before the queued closure is processed and the
+   loop deletes the NEW tag: registered, unclosed, and not in knownTags *)
+Theorem c14_registry_early_release_loses_the_new_tag :
+  let r := rrun true rinit [RRegister 0; RClose 0 0; RRegister 0; RProc] in
+  In (0%nat, 1%nat) (r_all r) /\ ~ In (0%nat, 1%nat) (r_closed r) /\ known_of r 0 = None.
+Proof. vm_compute. repeat split; auto. intros [H|[]]. discriminate. Qed.
+Print Assumptions c14_registry_early_release_loses_the_new_tag.
+
 (* ---- non-vacuity ------------------------------------------------------------------ *)
 (* a reachable state in which a trim closes the lowest-valued unprotected peer
    outside its grace period and keeps the protected and the young one *)
@@ -448,4 +471,20 @@ Example cmon_rejects_closed_inside_fresh_grace :
   cm_events (mkCfg 1 3 5 1 [])
     [EOp (TagPeer 0 0 1); EOp (Connected 1 0); EOp (Connected 2 0); EOp (Advance 5); ETrimBegin; ESnap 0; ESnap 1; ESnap 2;
      ESnapEnd; EOp (Connected 0 7); EClosed [(0%nat, 7%nat)]] = inr [ERR_PROPERTY; 10; 37].
+Proof. vm_compute. reflexivity. Qed.
+
+(* a tag re-registered after a Close of the same name decays again in the model,
+   and the monitor rejects a trace in which it does not (the m10 regression) *)
+Example reregistered_tag_decays :
+  let cfg := mkCfg 1 3 0 1 [mkDtag 2 1 1 0] in
+  let s := run isort cfg (init cfg) [Connected 0 0; Bump 0 0 5; DCloseQ 0; DRegister 0 false; DClose 0; DRegister 0 true;
+                                     Bump 0 0 4; Advance 2] in
+  p_value (peer_at s 0) = 3.
+Proof. vm_compute. reflexivity. Qed.
+
+Example monitor_rejects_reregistered_tag_that_never_decays :
+  monitor (mkCfg 1 3 0 1 [mkDtag 2 1 1 0]) 1
+    [(Connected 0 0, mkObs 1 [(true, 0, 0)] []); (DClose 0, mkObs 1 [(true, 0, 0)] []);
+     (DRegister 0 true, mkObs 1 [(true, 0, 0)] []); (Bump 0 0 4, mkObs 1 [(true, 4, 4)] []);
+     (Advance 2, mkObs 1 [(true, 4, 4)] [])] = [ERR_PROPERTY; 4; 4].
 Proof. vm_compute. reflexivity. Qed.
